@@ -241,7 +241,8 @@ def compare_layers(ref_layers, got_layers, tol, ngrid=24, check_palette=True):
             problems.append({"what": "group alpha stack", "layer": i, "ref": ra, "got": ga})
             continue
         for (tr, _), (tg, _) in zip(r.groups, g.groups):
-            if tokmap.setdefault(tr, tg) != tg:
+            # one-to-one: a group must not be split, and two groups must not be merged into one
+            if tokmap.setdefault(("r", tr), tg) != tg or tokmap.setdefault(("g", tg), tr) != tr:
                 problems.append({"what": "group structure", "layer": i})
     for i, (r, g) in enumerate(zip(ref_layers, got_layers)):
         eps = tol.eps(g, r)
